@@ -585,6 +585,8 @@ def run(ctx):
         # fixed shapes: over-aligned objects with a partial initializer, bit-fields at the end, strings that fill the array
         for k, (src, meta) in enumerate(LAYOUT_HAND):
             rc, out, err = ctx.qbe(src)
+            if rc != 0:
+                ctx.violation('valid hand-written layout unit is not compiled (status %d): %s' % (rc, err[:200]), src, 'c', key='layout-hand-rejected')
             if rc == 0:
                 f = os.path.join(ctx.tmp, 'lh%d.qbe' % k)
                 open(f, 'w').write(out)
@@ -713,6 +715,12 @@ LAYOUT_HAND.append(
      'const struct W4 w4 = { u"xy", 7 }; const struct W6 w6 = { 1, U"z", 2 };\n',
      {'globals': [('w1', 'unsigned short[8]', None), ('w2', 'unsigned[5]', None), ('w3', 'int[4]', None), ('w4', 'struct W4', None),
                   ('w5', 'unsigned short[3]', None), ('w6', 'struct W6', None), ('w7', 'unsigned short[2][5]', None)]}))
+
+# anonymous struct/union members carry their alignment into the enclosing aggregate
+LAYOUT_HAND.append(
+    ('struct A1 { char tag; union { long l; double d; }; };\nstruct A2 { char c; struct { short s; _Alignas(16) char z; }; };\nstruct A3 { char k; struct { struct { long deep; }; }; char e; };\n'
+     'const struct A1 q1 = { 1 }; const struct A2 q2 = { 1 }; const struct A3 q3 = { 1, 2, 3 }; const struct A1 q4[2] = { { 1 }, { 2 } };\n',
+     {'globals': [('q1', 'struct A1', None), ('q2', 'struct A2', None), ('q3', 'struct A3', None), ('q4', 'struct A1[2]', None)]}))
 
 # objects whose type is completed only after their first declaration (alignment must be that of the completed type)
 LAYOUT_HAND.append(
